@@ -52,6 +52,52 @@ def alpha_rename(src, relpath):
     return ast.unparse(ast.parse(src)).encode("utf-8")
 
 
+class _Renamer:
+    """behaviour-preserving: consistent renaming of function-local variables (parameters, globals and attributes untouched)"""
+
+    @staticmethod
+    def rename_module(tree, suffix="_rn"):
+        import ast
+        import copy
+        tree = copy.deepcopy(tree)
+        for fn in [n for n in ast.walk(tree) if isinstance(n, (ast.FunctionDef, ast.AsyncFunctionDef))]:
+            params = {a.arg for a in fn.args.posonlyargs + fn.args.args + fn.args.kwonlyargs}
+            if fn.args.vararg:
+                params.add(fn.args.vararg.arg)
+            if fn.args.kwarg:
+                params.add(fn.args.kwarg.arg)
+            declared = set()
+            nested = set()
+            for n in ast.walk(fn):
+                if isinstance(n, (ast.Global, ast.Nonlocal)):
+                    declared.update(n.names)
+                if n is not fn and isinstance(n, (ast.FunctionDef, ast.AsyncFunctionDef, ast.ClassDef)):
+                    nested.add(n.name)
+            own = []
+            todo = list(ast.iter_child_nodes(fn))
+            while todo:
+                n = todo.pop()
+                if isinstance(n, (ast.FunctionDef, ast.AsyncFunctionDef, ast.ClassDef, ast.Lambda)):
+                    continue
+                own.append(n)
+                todo.extend(ast.iter_child_nodes(n))
+            local = {n.id for n in own if isinstance(n, ast.Name) and isinstance(n.ctx, (ast.Store, ast.Del))}
+            local |= {h.name for h in own if isinstance(h, ast.ExceptHandler) and h.name}
+            local -= params | declared | nested
+            # names also used inside nested functions / lambdas stay (closures)
+            inner = set()
+            for n in ast.walk(fn):
+                if n is not fn and isinstance(n, (ast.FunctionDef, ast.AsyncFunctionDef, ast.Lambda)):
+                    inner |= {x.id for x in ast.walk(n) if isinstance(x, ast.Name)}
+            local -= inner
+            for n in own:
+                if isinstance(n, ast.Name) and n.id in local:
+                    n.id = n.id + suffix
+                elif isinstance(n, ast.ExceptHandler) and n.name in local:
+                    n.name = n.name + suffix
+        return tree
+
+
 def run(prop, repo, seed):
     mod = props.load(prop)
     pinned = getattr(mod, "PINNED", [])
@@ -85,6 +131,11 @@ def run(prop, repo, seed):
         table.append(dict(variant=f"ast round trip of {relpath}", kind="preserving", outcome=out, detail=detail))
         if out != base_out:
             broken.append(f"behaviour-preserving ast round trip of {relpath} changed the verdict to {out}: {detail}")
+        v = repo.variant(relpath, ast.unparse(_Renamer.rename_module(m[0].tree)).encode("utf-8"))
+        out, detail = run_variant(prop, v)
+        table.append(dict(variant=f"renaming of all function-local variables in {relpath}", kind="preserving", outcome=out, detail=detail))
+        if out != base_out:
+            broken.append(f"behaviour-preserving renaming of locals in {relpath} changed the verdict to {out}: {detail}")
     base_out, _ = run_variant(prop, repo)
     for name, relpath, old, new in preserving:
         v = make_variant(repo, relpath, old, new)
